@@ -116,10 +116,10 @@ func (sm *ShardManager) cleanupRoutine(ls *loadedShard, backupFrequency, backupC
 			}
 		case <-timer.C:
 			sm.logger.Debug().Str("shardDir", shardDir).Msg("Unloading shard")
-			ls.mu.Lock()
-			defer ls.mu.Unlock() // we commit to exiting the cleanup goroutine here
+			ls.mu.Lock() // we commit to exiting the cleanup goroutine here
 			if ls.shard == nil {
 				sm.logger.Debug().Str("shardDir", shardDir).Msg("Shard already unloaded")
+				ls.mu.Unlock()
 				return
 			}
 			// ---------------------------
@@ -145,8 +145,16 @@ func (sm *ShardManager) cleanupRoutine(ls *loadedShard, backupFrequency, backupC
 			// is closed in case they are waiting on the lock
 			sm.logger.Debug().Str("shardDir", shardDir).Msg("Removing loaded shard")
 			ls.shard = nil
+			// We must release the shard lock before taking the store lock:
+			// DeleteCollectionShards takes them in the opposite order and
+			// the two would deadlock. Waiting requests see the nil shard.
+			ls.mu.Unlock()
 			sm.shardLock.Lock()
-			delete(sm.shardStore, shardDir)
+			// The entry may have been deleted, and the shard even reloaded,
+			// while we were not holding any lock. Only remove our own entry.
+			if sm.shardStore[shardDir] == ls {
+				delete(sm.shardStore, shardDir)
+			}
 			sm.shardLock.Unlock()
 			// ---------------------------
 			return
